@@ -120,7 +120,10 @@ def run(ctx):
         if kind == 'check':
             if 'violation' in r:
                 v = r['violation']
-                ctx.violation({'kind': v['kind']}, f"{v['kind']} (variable {v.get('variable')}) in loop `{code[:200]}`",
+                sig = {'kind': v['kind']}
+                if 'loop_infinite' in v:
+                    sig['loop_infinite'] = v['loop_infinite']
+                ctx.violation(sig, f"{v['kind']} (variable {v.get('variable')}) in loop `{code[:200]}`",
                               {'loop': code, 'detail': v, 'results': obs['results']})
             elif not r['ok'].get('supported', True):
                 ctx.count('outside_spec_fragment')
